@@ -180,6 +180,9 @@ type RollSampleGroupEntry struct {
 // DecodeRollSampleGroupEntry - decode Roll Sample Group Entry
 func DecodeRollSampleGroupEntry(name string, length uint32, sr bits.SliceReader) (SampleGroupEntry, error) {
 	entry := &RollSampleGroupEntry{}
+	if length != uint32(entry.Size()) {
+		return nil, fmt.Errorf("roll: given length %d different from size %d", length, entry.Size())
+	}
 	entry.RollDistance = sr.ReadInt16()
 	return entry, sr.AccError()
 }
@@ -217,6 +220,9 @@ type RapSampleGroupEntry struct {
 // DecodeRapSampleGroupEntry - decode Rap Sample Sample Group Entry
 func DecodeRapSampleGroupEntry(name string, length uint32, sr bits.SliceReader) (SampleGroupEntry, error) {
 	entry := &RapSampleGroupEntry{}
+	if length != uint32(entry.Size()) {
+		return nil, fmt.Errorf("rap : given length %d different from size %d", length, entry.Size())
+	}
 	byt := sr.ReadUint8()
 	entry.NumLeadingSamplesKnown = byt >> 7
 	entry.NumLeadingSamples = byt & 0x7F
